@@ -436,8 +436,13 @@ def run_sequence(seq, fresh=False):
         exc = s.apply(op)
         if op[4]:
             nontrivial = True
-            if exc is None:
-                raise RuntimeError(f"harness premise: operation {op[0]} was expected to raise and did not")
+            if exc is None and not diverged:
+                # an activation that must fail (invalid redefinition / unknown name) was accepted silently: the
+                # registry now runs with a context the reference stack does not contain
+                diverged = True
+                recs.append(("failed-activation-accepted", i,
+                             f"operation {op[0]} must raise (its activation is invalid) but it returned normally; "
+                             f"reference stack after it: {[k for k, _ in m.stack]}"))
         else:
             if op[1] == "raise":
                 nontrivial = True
